@@ -72,7 +72,7 @@ func iriMustEscapeRune(r rune, ascii bool) iriRuneEscapeMode {
 	} else if ascii {
 		if r > 0xffff {
 			return iriRuneEscapeUCHAR8
-		} else if r > 0xff {
+		} else if r > 0x7f {
 			return iriRuneEscapeUCHAR4
 		}
 	}
